@@ -31,6 +31,8 @@ type c10End struct {
 func c10(tier string) []*explore.Scenario {
 	var out []*explore.Scenario
 	sets := []string{"", "o", "U", "R", "X", "S", "oU", "UR", "RX", "oS", "URX", "UU", "RR", "Z", "ZR", "oZ"}
+	// more blocked unary handlers than the pool has workers (8): the 9th/10th request waits in the read loop
+	sets = append(sets, "UUUUUUUUU", "UUUUUUUUUU", "UUUUUUUUUo", "UUUUUUUUUR")
 	if tier == "thorough" {
 		sets = append(sets, "UURR", "oURXS", "UUUUUUUU", "RRRRRRRR", "XXXXSSSS", "UUUUUUUURRRRRRRR")
 	}
@@ -45,6 +47,13 @@ func c10(tier string) []*explore.Scenario {
 		}
 		if tier == "thorough" && len(set) <= 2 {
 			bound = 2
+		}
+		if len(set) >= 9 {
+			// above the pool's size the read loop is parked handing the 9th request to a
+			// worker: it does not read (so no read can fail) and nothing is written; the
+			// one end that can happen there is Stop, once the 9 requests are in
+			out = append(out, c10One(set, c10End{"stop", 9}, bound))
+			continue
 		}
 		for k := 0; k <= nreq; k++ {
 			out = append(out, c10One(set, c10End{"read", k}, bound))
